@@ -23,7 +23,8 @@ def handle : List String → String
   | ["rf", _mode, closeAt, chunks, n, err, wire, after] =>
     let cs := (chunks.splitOn ",").map unhex
     let j := closeAt.toNat?.getD 0
-    let (written, nn, e) := readFromClosing cs j
+    -- "pre": the channel was closed before the call: the entry check refuses it, nothing is read or written
+    let (written, nn, e) := if closeAt == "pre" then (([] : List Bytes), 0, true) else readFromClosing cs j
     let wantWire := hexOf written.flatten
     let gotWire := field wire "wire="
     let gotErr := field err "err="
